@@ -226,6 +226,7 @@ T_VALUES = [("5", 5, (None, "int", "Optional[int]")), ("-5", -5, (None, "int")),
             ("100", 100, (None, "int")), ("5", 5.0, ("float",)), ("0.5", 0.5, (None, "float")), ("-0.5", -0.5, (None, "float")),
             ("1e-07", 1e-07, (None, "float")), ("3.0", 3.0, (None, "float")), ("10.25", 10.25, (None, "float")),
             ("True", True, (None, "bool")), ("False", False, (None, "bool")), ("None", None, (None, "Optional[int]", "int", "str")),
+            ('""', "", ("str", "Optional[str]", "Union[str, int]", None)), ("''", "", ("str", "Optional[str]")),
             ('"mnist"', "mnist", ("str", "Optional[str]")), ("'mnist'", "mnist", ("str",)), ('"a b"', "a b", ("str",)), ("mnist", "mnist", (None,)),
             ("```[]```", "[]", (None, "List[int]")), ("```(np.empty(0), np.empty(0))```", "(np.empty(0), np.empty(0))", (None,)),
             ("```{'a': 1}```", "{'a': 1}", (None,)), ("(1, 2)", "(1, 2)", (None,)), ("[1, 2]", "[1, 2]", (None,))]
@@ -239,7 +240,7 @@ def _t_same(got, want):
     if want is None:
         return got is None or (isinstance(got, str) and got in ("None", NoneStr))
     if isinstance(want, str):
-        return isinstance(got, str) and got.strip("`") == want
+        return isinstance(got, str) and (got.strip("`") == want if want else got == want)
     return type(got) is type(want) and got == want
 
 
